@@ -170,6 +170,14 @@ func TestReplay(t *testing.T) {
 	if err != nil {
 		t.Fatal(err)
 	}
+	if cf.Sub == "precond-retry" {
+		var pc sim.Case
+		if err := json.Unmarshal(cf.Case, &pc); err != nil {
+			t.Fatal(err)
+		}
+		checkPrecondRetry(t, pc)
+		return
+	}
 	if cf.Sub == "precond" {
 		var pc sim.Case
 		if err := json.Unmarshal(cf.Case, &pc); err != nil {
